@@ -2,7 +2,7 @@
 From Coq Require Import List NArith ZArith Bool.
 From GoPdf.Base Require Import Bytes Res.
 From GoPdf.Gen Require Import Gen_C06.
-From GoPdf.C06 Require Import Machine MachineProofs AHx A85 RunLen LZW Predict Chain FilterParams Conform
+From GoPdf.C06 Require Import Machine MachineProofs AHx A85 RunLen LZW Predict Chain FilterParams Conform CCITT CCITTTables CCITTProofs
   AHxProofs A85Proofs RunLenProofs LZWCodeProofs LZWBitProofs PredictProofs ChainProofs FilterParamsProofs.
 Import ListNotations.
 
@@ -107,3 +107,53 @@ Print Assumptions parse_clamps.
 Theorem lzw_rt : forall early x, wf x -> lzw_dec early (lzw_enc early x) = Ok x.
 Proof. exact lzw_rt_proof. Qed.
 Print Assumptions lzw_rt.
+
+(* ---- CCITTFax, K = 0 (ITU-T T.4 one-dimensional coding); tables translated from the Go source ---- *)
+
+(* the terminating, make-up and extended make-up codes of either colour, with the EOL prefix, form a prefix code *)
+Theorem ccitt_tables_prefix_free : prefix_free (codes_of true) && prefix_free (codes_of false) = true.
+Proof. exact ccitt_prefix_free_check. Qed.
+Print Assumptions ccitt_tables_prefix_free.
+
+(* the reader's 4096- and 8192-entry lookup tables agree with the writer's code tables: every 12/13-bit
+   window that starts with a code word yields that word's width, state and run length; every other window is
+   marked invalid (width 0); all codes fit the window *)
+Theorem ccitt_decode_tables : table_ok true && table_ok false = true.
+Proof. exact ccitt_table_check. Qed.
+Print Assumptions ccitt_decode_tables.
+
+(* a run: the line decoder, at column xpos with the bits of run_bits white n ahead (anything may follow),
+   paints n pixels of that colour, switches colour and has consumed exactly those bits - for every n *)
+Theorem g3_run_rt : forall p white n tail r rb xpos ne pending line,
+  good r rb -> real r rb = run_bits white n ++ tail ->
+  (xpos < g_cols p \/ pending = true)%N -> (xpos + n <= g_cols p)%N ->
+  exists m r' rb', (m <= length (run_bits white n))%nat /\ good r' rb' /\ real r' rb' = tail /\
+    forall f, g3_line (m + f) p xpos white ne pending line r =
+      g3_line f p (xpos + n)%N (negb white) ne false (repeat (pix p white) (N.to_nat n) ++ line) r'.
+Proof. exact line_run. Qed.
+Print Assumptions g3_run_rt.
+
+(* a line: EOL code (if EndOfLine) and the runs of a row, white first, are decoded to exactly those runs *)
+Theorem g3_row_rt : forall p rs tail r rb,
+  (0 < g_cols p)%N -> good r rb ->
+  real r rb = (if g_eol p then eol_bits else []) ++ runs_bits true rs ++ tail ->
+  rs <> [] -> nsum rs = g_cols p -> Forall (fun k => 1 <= k)%N (tl rs) ->
+  exists m r' rb', (m <= length ((if g_eol p then eol_bits else []) ++ runs_bits true rs))%nat /\
+    good r' rb' /\ real r' rb' = tail /\
+    forall f, g3_line (m + f) p 0%N true 0 false [] r = (paint p true rs [], r').
+Proof. exact line_row. Qed.
+Print Assumptions g3_row_rt.
+
+(* whole images, every parameter class of K = 0 (EndOfLine, EncodedByteAlign, BlackIs1, EndOfBlock, Rows):
+   rows of ceil(Columns/8) bytes whose padding bits are zero *)
+Theorem g3_1d_rt : forall p rows,
+  (0 < g_cols p)%N -> Forall (row_ok p) rows ->
+  (g_maxrows p = 0%nat \/ (length rows <= g_maxrows p)%nat) ->
+  g3_dec p (g3_enc p (concat rows)) = Ok (concat rows).
+Proof. exact g3_1d_rt_proof. Qed.
+Print Assumptions g3_1d_rt.
+
+Example g3_hyp :
+  row_ok {| g_cols := 13; g_eol := true; g_align := true; g_blackis1 := false; g_ignore_eob := true; g_maxrows := 0 |}
+         [255; 0]%N.
+Proof. repeat split; repeat constructor. Qed.
